@@ -18,7 +18,7 @@ static bool clause_is(const std::string &clause, const std::string &prop, std::i
 // documents for the parse workload
 static std::vector<unsigned char> small_doc(const RunSpec &spec, Doc *docp, int max_items) {
     Rng r(hmix(run_seed_of(spec), hstr("doc")));
-    DocCfg cfg; cfg.version = r.chance(3, 4) ? 2 : 1; cfg.max_blocks = (int) r.range(1, 2); cfg.max_items = (int) r.range(1, max_items); cfg.max_loop_names = 3; cfg.max_packets = 3; cfg.frames = r.chance(1, 2);
+    DocCfg cfg; cfg.version = r.chance(3, 4) ? 2 : 1; cfg.max_blocks = (int) r.range(1, 2); cfg.max_items = (int) r.range(2, max_items); cfg.max_loop_names = 3; cfg.max_packets = 3; cfg.frames = r.chance(1, 2);
     cfg.vals.max_depth = (int) r.range(0, 2); cfg.vals.max_members = 3; cfg.vals.allow_long = r.chance(1, 8); cfg.vals.allow_composite = cfg.version >= 2;
     Doc d = gen_doc(r, cfg); Rng lr(hmix(run_seed_of(spec), hstr("layout")));
     Layout l = layout_doc(d, lr, cfg);
@@ -100,12 +100,12 @@ static RunResult run_c17(const RunSpec &spec) {
         else if (sel < 92) {
             what = "parse";
             g_plan_n_ops = 0; g_plan_fault_ops.clear(); plan_ready();
-            std::vector<unsigned char> bytes = small_doc(spec, NULL, quick ? 3 : 5);
+            std::vector<unsigned char> bytes = small_doc(spec, NULL, quick ? 4 : 6);
             Rng pr(hmix(run_seed_of(spec), hstr("parse")));
             // half of the documents are damaged (error paths of the parser under allocation failure)
             int ncor = (spec.mods.simple.count(0) || pr.chance(1, 2)) ? 0 : (int) pr.range(1, 3);
             for (int i = 0; i < ncor && !bytes.empty(); ++i) {
-                size_t at = pr.below(bytes.size()); unsigned kind = (unsigned) pr.below(5);
+                size_t at = pr.below(bytes.size()); unsigned kind = (unsigned) pr.below(9); if (kind >= 5) kind = kind - 5; if (kind == 3 && pr.chance(2, 3)) kind = 1;   // truncation is rare: it leaves little to parse
                 static const char INS[] = "'\";[]{}:_#$ \n\\";
                 if (kind == 0) bytes.erase(bytes.begin() + (long) at);
                 else if (kind == 1) bytes.insert(bytes.begin() + (long) at, (unsigned char) INS[pr.below(sizeof INS - 1)]);
@@ -115,7 +115,9 @@ static RunResult run_c17(const RunSpec &spec) {
             }
             FaultEnum fe; fe.enabled = true; fe.quick = quick; fe.prop = prop; fe.seed = run_seed_of(spec);
             ParseOpts o; o.policy = pr.chance(2, 3) ? 1 : 0; o.target = (spec.run % 4 == 0) ? 0 : 1; o.max_frame_depth = (int) pr.range(-1, 1); StreamCfg sc; sc.chunk = pr.chance(1, 2) ? (size_t) pr.range(1, 64) : 0;
-            ev("C17 parse of %zu bytes (%d corruption(s)), policy=%d target=%d", bytes.size(), ncor, o.policy, o.target);
+            // half of the parses run with handlers that query the objects they are given (allocations inside callbacks count too)
+            if (pr.chance(1, 2)) { o.hp.present = true; o.hp.reenter = true; for (int k = 0; k < 11; ++k) o.hp.resp[k].push_back(CIF_TRAVERSE_CONTINUE); o.syntax_callbacks = pr.chance(1, 2); }
+            ev("C17 parse of %zu bytes (%d corruption(s)), policy=%d target=%d handlers=%d", bytes.size(), ncor, o.policy, o.target, o.hp.present ? 1 : 0);
             if (g_log.keep_text) { std::string t; for (size_t i = 0; i < bytes.size() && t.size() < 900; ++i) { unsigned char ch = bytes[i]; if (ch == '\n') t += "\\n"; else if (ch >= 0x20 && ch < 0x7f && ch != '\\') t += (char) ch; else t += strprintf("\\x%02x", ch); } ev("bytes: %s", t.c_str()); }
             // reference: the same call with memory available
             ParseOutcome ref = run_parse(bytes, o, sc, NULL);
@@ -126,6 +128,14 @@ static RunResult run_c17(const RunSpec &spec) {
             fe.after_failed = [&](const char *, long) {
                 // a CIF newly created by a failing cif_parse must be readable, consistent and destroyable
                 if (made) { try { MCif m = dump_cif(made, "C17"); (void) m; } catch (Violation &v) { throw Violation(prop + ".unchanged", "parse:" + v.sig, "the CIF left by a cif_parse that failed for lack of memory is inconsistent: " + v.detail, -1); } int rc = cif_destroy(made); made = NULL; fe.watch_db = NULL; if (rc != CIF_OK) throw Violation(prop + ".args_valid", "cif_destroy", "the CIF left by a failed cif_parse cannot be destroyed", -1); }
+            };
+            fe.idempotent = true;
+            fe.after_absorbed = [&](const char *, long, int arc) {
+                std::unique_ptr<Violation> bad2;
+                if (arc != ref.rc) bad2.reset(new Violation(prop + ".retry", strprintf("cif_parse:absorbed:%s!=%s", rc_name(arc), rc_name(ref.rc)), strprintf("cif_parse completed with %s although an allocation failed; with memory available the same call returns %s", rc_name(arc), rc_name(ref.rc)), -1));
+                else if (made && ref_dump_ok && !o.hp.present) { try { std::string d2 = canon(dump_cif(made, "C17")); if (d2 != ref_dump) bad2.reset(new Violation(prop + ".unchanged", "cif_parse:absorbed:content", "cif_parse returned its normal code although an allocation failed, but the CIF it produced differs from the one produced with memory available: " + first_diff(ref_dump, d2), -1)); } catch (Violation &v) { bad2.reset(new Violation(prop + ".unchanged", "parse:" + v.sig, v.detail, -1)); } }
+                if (made) { int q = cif_destroy(made); (void) q; made = NULL; fe.watch_db = NULL; }
+                if (bad2) throw *bad2;
             };
             int rc = fe.call("cif_parse", [&]() { if (made) { int q = cif_destroy(made); (void) q; made = NULL; } fe.watch_db = NULL; out = run_parse(bytes, o, sc, NULL); made = out.cif; fe.watch_db = made ? made->db : NULL; return out.rc; });
             ev("cif_parse -> %s after %ld failed attempts", rc_name(rc), fe.steps);
